@@ -1,6 +1,6 @@
 (* Model of the once-per-day series announcement of the writer (property C04, histories):
-   builder.go onEntries / maybeAddFp, the shared numbercache (one process-wide set of
-   (day, fingerprint) pairs, emptied every 30 minutes), and the two inserts of a log/metric push
+   builder.go onEntries / maybeAddFp / ConfirmSeries, the shared numbercache (one process-wide set of
+   (day, fingerprint, type) triples, emptied every 30 minutes), and the two inserts of a log/metric push
    (time_series rows, samples rows) whose promises decide the HTTP status (controller/builder.go
    doParse: 2xx iff every insert of the request succeeded).
    Executable definitions only; proofs in proofs/SeriesIndexProofs.v.
@@ -9,12 +9,20 @@
      dates := set of UTC days of the entries' timestamps
      tps   := set of sample types present (1 log, 2 metric, 0 both)
      for d in dates: for t in tps:
-        if maybeAddFp(d, fp, t, cache)   -- true iff (d, fp, t) was NOT in the cache; ADDS it now
+        if (d, fp, t) was not emitted by THIS request already and is not in the cache (maybeAddFp = !cache.Has)
            emit the series row (d, fp, t)
-   The triple is marked as announced at parse time, before (and regardless of whether) the row is
-   inserted. (Until the fix recorded in findings.d/C04.txt the cache was keyed by (d, fp) only and a
-   label set seen first with log lines and then with metric values got no type-2 row.) Not modelled: the mid-request flush above 1 MiB (requests of the generator are small),
-   cache eviction by fastcache (only causes re-announcement), distributed mode (cache disabled). *)
+   and what doParse does once EVERY insert of the request has succeeded: ConfirmSeries puts the emitted
+   rows into the cache. (Until the fix recorded in findings.d/C04.txt the triple was put into the cache
+   while parsing, before and regardless of the outcome of the insert: a failed series insert, or a body
+   that failed to parse after some streams, kept the row back from every later request until the next
+   reset. Earlier still the cache was keyed by (d, fp) only.)
+   Requests may overlap: [Begin] parses the streams received so far against the cache as it is at that moment
+   and leaves the request in flight (its body is not complete yet, nothing is sent), [End k] completes the
+   k-th request in flight: the body ends, the two inserts are made with the given outcomes,
+   [Abort k] is a request whose body turned out to be malformed after the streams parsed so far (400, no
+   insert). [Push] is Begin immediately followed by its End, [PushBad] Begin followed by Abort.
+   Not modelled: the mid-request flush above 1 MiB (requests of the generator are small), cache eviction
+   by fastcache (only causes re-announcement), distributed mode (cache disabled: Has is always false). *)
 From Coq Require Import List ZArith Bool.
 Import ListNotations.
 Open Scope Z_scope.
@@ -27,7 +35,11 @@ Record entry := { e_ts : Z; (* ns since the epoch, >= 0 *) e_type : stype }.
 Record stream := { s_fp : Z; s_entries : list entry }.
 
 Inductive action :=
-| Push (streams : list stream) (ts_ok spl_ok : bool)   (* one HTTP push; outcomes of its two inserts *)
+| Push (streams : list stream) (ts_ok spl_ok : bool)   (* one HTTP push handled alone; outcomes of its two inserts *)
+| PushBad (streams : list stream)                       (* a push whose body is malformed after these streams: 400, no insert *)
+| Begin (streams : list stream)                         (* a push is parsed; its inserts are in flight *)
+| End (k : nat) (ts_ok spl_ok : bool)                   (* the k-th push in flight completes with these insert outcomes *)
+| Abort (k : nat)                                       (* the k-th push in flight turns out malformed: 400, no insert *)
 | CacheReset.                                           (* the 30-minute ticker fired *)
 
 Definition day_of (ts_ns : Z) : Z := (ts_ns / 1000000000) / 86400.
@@ -68,33 +80,72 @@ Definition parse (cache : list row) (ss : list stream) : list row * list row :=
 Definition samples_of (ss : list stream) : list sample :=
   flat_map (fun s => map (fun e => (s_fp s, day_of (e_ts e), tcode (e_type e))) (s_entries s)) ss.
 
+(* a request in flight: the series rows it emitted while parsing, its samples *)
+Definition flight : Type := (list row * list sample)%type.
+
 Record state := {
-  cache : list row;            (* (day, fingerprint, type) triples announced since the last reset *)
+  cache : list row;            (* (day, fingerprint, type) triples confirmed since the last reset *)
   ts_rows : list row;          (* series rows successfully inserted *)
-  acked : list sample          (* samples of acknowledged (2xx) pushes *)
+  acked : list sample;         (* samples of acknowledged (2xx) pushes *)
+  pending : list flight        (* requests parsed and not yet completed, oldest first *)
 }.
-Definition init : state := {| cache := []; ts_rows := []; acked := [] |}.
+Definition init : state := {| cache := []; ts_rows := []; acked := []; pending := [] |}.
 
 Definition is_nil {A} (l : list A) : bool := match l with [] => true | _ => false end.
 
 (* what one action shows to the outside *)
 Inductive obs :=
 | OPush (ack : bool) (rows : list row) (nsamples : Z)    (* 2xx?, series rows sent to ClickHouse, samples sent *)
+| OBad                                                    (* 400, nothing sent *)
+| OBegin                                                  (* nothing is sent before the body is complete *)
+| ONone                                                   (* End / Abort of a request that does not exist *)
 | OReset.
+
+(* parsing: the rows are decided against the cache as it is now; the cache is not written *)
+Definition begin_req (st : state) (ss : list stream) : flight := (snd (parse (cache st) ss), samples_of ss).
+
+(* completion: doParse waits for every insert; only when all of them succeeded the request is acknowledged
+   and ConfirmSeries enters its rows into the cache.
+   An empty time-series request is fulfilled without an insert (processRequest returns 0 rows). *)
+Definition finish (st : state) (f : flight) (ts_ok spl_ok : bool) (pend : list flight) : state * bool :=
+  let '(rows, spl) := f in
+  let ts_done := is_nil rows || ts_ok in
+  let ack := ts_done && spl_ok in
+  ({| cache := if ack then rows ++ cache st else cache st;
+      ts_rows := if ts_ok then rows ++ ts_rows st else ts_rows st;
+      acked := if ack then spl ++ acked st else acked st;
+      pending := pend |}, ack).
+
+Fixpoint remove_nth {A} (k : nat) (l : list A) : list A :=
+  match k, l with
+  | _, [] => []
+  | O, _ :: r => r
+  | S k', x :: r => x :: remove_nth k' r
+  end.
 
 Definition step (st : state) (a : action) : state * obs :=
   match a with
-  | CacheReset => ({| cache := []; ts_rows := ts_rows st; acked := acked st |}, OReset)
+  | CacheReset => ({| cache := []; ts_rows := ts_rows st; acked := acked st; pending := pending st |}, OReset)
   | Push ss ts_ok spl_ok =>
-    let '(c', rows) := parse (cache st) ss in
-    let spl := samples_of ss in
-    (* an empty time-series request is fulfilled without an insert (processRequest returns 0 rows) *)
-    let ts_done := is_nil rows || ts_ok in
-    let ack := ts_done && spl_ok in
-    ({| cache := c';
-        ts_rows := if ts_ok then rows ++ ts_rows st else ts_rows st;
-        acked := if ack then spl ++ acked st else acked st |},
-     OPush ack rows (Z.of_nat (length spl)))
+    let f := begin_req st ss in
+    let '(st', ack) := finish st f ts_ok spl_ok (pending st) in
+    (st', OPush ack (fst f) (Z.of_nat (length (snd f))))
+  | PushBad ss => (st, OBad)
+  | Begin ss =>
+    let f := begin_req st ss in
+    ({| cache := cache st; ts_rows := ts_rows st; acked := acked st; pending := pending st ++ [f] |},
+     OBegin)
+  | End k ts_ok spl_ok =>
+    match nth_error (pending st) k with
+    | Some f => let '(st', ack) := finish st f ts_ok spl_ok (remove_nth k (pending st)) in
+                (st', OPush ack (fst f) (Z.of_nat (length (snd f))))
+    | None => (st, ONone)
+    end
+  | Abort k =>
+    match nth_error (pending st) k with
+    | Some f => ({| cache := cache st; ts_rows := ts_rows st; acked := acked st; pending := remove_nth k (pending st) |}, OBad)
+    | None => (st, ONone)
+    end
   end.
 
 Fixpoint run (st : state) (h : list action) : state :=
@@ -119,34 +170,31 @@ Definition indexed_typed (rows : list row) (s : sample) : bool :=
 Definition all_indexed (st : state) : bool := forallb (indexed (ts_rows st)) (acked st).
 Definition all_indexed_typed (st : state) : bool := forallb (indexed_typed (ts_rows st)) (acked st).
 
-(* guard of the partial theorem: after a push whose series insert failed, nothing is pushed until
-   the next cache reset *)
-Fixpoint clean_hist (dirty : bool) (h : list action) : bool :=
+(* ------------------------------------------------------------------ the code before the fix, kept to state what was wrong
+   maybeAddFp entered the triple into the cache while parsing *)
+Definition step_old (st : state) (a : action) : state :=
+  match a with
+  | Push ss ts_ok spl_ok =>
+    let '(c', rows) := parse (cache st) ss in
+    let ack := (is_nil rows || ts_ok) && spl_ok in
+    {| cache := c';
+       ts_rows := if ts_ok then rows ++ ts_rows st else ts_rows st;
+       acked := if ack then samples_of ss ++ acked st else acked st; pending := pending st |}
+  | PushBad ss => {| cache := fst (parse (cache st) ss); ts_rows := ts_rows st; acked := acked st; pending := pending st |}
+  | CacheReset => {| cache := []; ts_rows := ts_rows st; acked := acked st; pending := pending st |}
+  | _ => st
+  end.
+Fixpoint run_old (st : state) (h : list action) : state :=
   match h with
-  | [] => true
-  | CacheReset :: r => clean_hist false r
-  | Push _ ts_ok _ :: r => negb dirty && clean_hist (negb ts_ok) r
+  | [] => st
+  | a :: r => run_old (step_old st a) r
   end.
-
-(* a fingerprint always arrives with the same set of sample types (all streams of the history that
-   carry it have equal type sets): then an inserted row of any type for (day, fingerprint) means
-   rows of all its types were inserted (used by the oracle hv_new below) *)
-Definition all_streams (h : list action) : list stream :=
-  flat_map (fun a => match a with Push ss _ _ => ss | CacheReset => [] end) h.
-Fixpoint types_eqb (a b : list stype) : bool :=
-  match a, b with
-  | [], [] => true
-  | x :: r, y :: r' => stype_eqb x y && types_eqb r r'
-  | _, _ => false
-  end.
-Definition stable_pair (s1 s2 : stream) : bool :=
-  negb (s_fp s1 =? s_fp s2) || types_eqb (types_of (s_entries s1)) (types_of (s_entries s2)).
-Definition types_stable (h : list action) : bool :=
-  let ss := all_streams h in forallb (fun s1 => forallb (stable_pair s1) ss) ss.
 
 (* ------------------------------------------------------------------ correspondence cases (histories) *)
 Inductive hobs :=
 | HPush (ack : bool) (rows : list row) (samples : list sample)   (* observed: status 2xx, series rows sent (sorted), sample rows sent *)
+| HBad                                                            (* observed: status 400 and no insert *)
+| HBegin                                                          (* observed: nothing reached the client *)
 | HReset.
 
 Record hcase := { hc_id : Z; hc_actions : list action; hc_obs : list hobs }.
@@ -171,8 +219,10 @@ Fixpoint rows_eqb (a b : list row) : bool :=
 Definition obs_match (o : obs) (h : hobs) : bool :=
   match o, h with
   | OReset, HReset => true
+  | OBad, HBad => true
   | OPush ack rows n, HPush ack' rows' spl =>
     Bool.eqb ack ack' && rows_eqb (sort_rows rows) (sort_rows rows') && (n =? Z.of_nat (length spl))
+  | OBegin, HBegin => true
   | _, _ => false
   end.
 Fixpoint obsl_match (a : list obs) (b : list hobs) : bool :=
@@ -188,8 +238,12 @@ Definition hist_mismatch (c : hcase) : bool := negb (obsl_match (run_obs init (h
    scripted to succeed, samples count when the push was answered 2xx *)
 Fixpoint observed_state (acts : list action) (os : list hobs) (rows : list row) (ack : list sample) : list row * list sample :=
   match acts, os with
-  | Push _ ts_ok _ :: ar, HPush a rs spl :: orr =>
+  | Push _ ts_ok _ :: ar, HPush a rs spl :: orr
+  | End _ ts_ok _ :: ar, HPush a rs spl :: orr =>
     observed_state ar orr (if ts_ok then rs ++ rows else rows) (if a then spl ++ ack else ack)
+  (* a malformed body is run with both inserts scripted to succeed: whatever it sends is stored *)
+  | PushBad _ :: ar, HPush a rs spl :: orr
+  | Abort _ :: ar, HPush a rs spl :: orr => observed_state ar orr (rs ++ rows) (if a then spl ++ ack else ack)
   | _ :: ar, _ :: orr => observed_state ar orr rows ack
   | _, _ => (rows, ack)
   end.
@@ -197,16 +251,9 @@ Definition obs_all_indexed (typed : bool) (c : hcase) : bool :=
   let '(rows, ack) := observed_state (hc_actions c) (hc_obs c) [] [] in
   forallb (if typed then indexed_typed rows else indexed rows) ack.
 
-(* violations that the recorded finding does not explain: a type-aware miss in a history without a
-   push after a failed series insert, or a type-only miss although the fingerprint's types never vary ... *)
-Definition hv_new (c : hcase) : bool :=
-  (negb (obs_all_indexed true c) && clean_hist false (hc_actions c)) ||
-  (obs_all_indexed false c && negb (obs_all_indexed true c) && types_stable (hc_actions c)).
-(* ... and the recorded finding itself: a push after a failed series insert (no reset in between) *)
-Definition hv_retry (c : hcase) : bool :=
-  negb (obs_all_indexed true c) && negb (clean_hist false (hc_actions c)) && negb (hv_new c).
+(* a violation: some acknowledged sample has no successfully inserted series row of its day and type *)
+Definition hv (c : hcase) : bool := negb (obs_all_indexed true c).
 
 Definition hids (f : hcase -> bool) (cs : list hcase) : list Z := map hc_id (filter f cs).
-(* [mismatch; new violation; known: retry after failed series insert] *)
-Definition hreport (cs : list hcase) : list (list Z) :=
-  [hids hist_mismatch cs; hids hv_new cs; hids hv_retry cs].
+(* [mismatch; violation] *)
+Definition hreport (cs : list hcase) : list (list Z) := [hids hist_mismatch cs; hids hv cs].
